@@ -55,6 +55,10 @@ def check(repo: Repo) -> Result:
 
     r6 = res.rule("C03-R6", "in_base / convert_to_base agree with to(get_base_equivalent): in_base hands the array back unconverted only when its unit expression is the system's own (a scaled dimensionless or merely equal-valued unit still converts; shared with C10-R3)", floor=2)
     share(res, r6, "C10", lambda t: c10.error_discipline(repo, t), ["C10-R3"], want=lambda k: k in ("in_base", "in_base:unchanged-only-if-system-unit", "get_base_equivalent:result"), min_keys=2)
+    from rules import c02
+
+    r7 = res.rule("C03-R7", "the (factor, offset) pair every route applies is the affine map between the two scales: factor = old scale / new scale, offset = factor * old offset - new offset, and the offset is left out only when both units have none - equal non-zero offsets with different scales still need it, or A->B->C differs from A->C (shared with C02-R4)", floor=4)
+    share(res, r7, "C02", lambda t: c02.ratio_direction(repo, t), ["C02-R4"], min_keys=4)
     return res
 
 
